@@ -46,6 +46,10 @@ JudgeTask(e, i, t, o) ==
     ELSE IF Touched(e, i) /\ t.start.has /\ t.c >= t.tot /\ ~o.finished THEN "not-finished"
     ELSE IF pobs[i].exists /\ pobs[i].finished /\ KeepsFin(e, i) /\ (~o.finished \/ o.fin # pobs[i].fin)
          THEN "finish-time-changed"
+    \* "... stays fixed UNTIL the total changes or the task is reset": that is where the finish is evaluated afresh -
+    \* a task that such an operation leaves below its total does not go on reporting the old finish
+    ELSE IF ~KeepsFin(e, i) /\ e.k \in {"reset", "update"} /\ o.finished /\ t.c < t.tot
+         THEN "still-finished-below-total-after-" \o e.k
     ELSE IF t.nonneg /\ o.speedSign = 0 - 1 THEN "negative-speed"
     ELSE IF e.k = "advance" /\ e.id = i /\ t.nonneg /\ t.start.has /\ ~t.stop.has /\ o.remSign = 0 - 1
          THEN "negative-time-remaining"
@@ -57,7 +61,7 @@ Judge(e, ts) ==
          IF v1 # "ok" THEN v1 ELSE JudgeTask(e, 2, ts[2], e.obs[2])
 
 \* implementation-shaped agreement (drift only): finished flag and finish time as the model predicts
-DriftTask(t, o) == t # Absent /\ o.exists /\ (o.finished # Finished(t) \/ (o.finished /\ t.fin.has /\ o.fin # t.fin.v))
+DriftTask(t, o) == t # Absent /\ o.exists /\ (o.finished # Finished(t) \/ (o.finished /\ t.fin.has /\ o.fin # 2 * t.fin.v))   \* obs in half units
 
 Step == /\ Tr.kind = "history" /\ l <= Len(Tr.events) /\ verdict = "ok"
         /\ LET e == Tr.events[l] IN
